@@ -244,6 +244,37 @@ func runC12(r *ev.Run) {
 				}
 			}
 		}
+		if ci%6 == 3 {
+			// directed prelude, the smallest update history there is: a lone vector is removed, another arrives while the
+			// tombstone is pending, the first comes back under its own id (same vector or a new one), the other leaves
+			do := func(op string, id uint32, v []float32) bool {
+				hist = append(hist, histOp{Op: op, ID: id, Vec: cloneF32(v)})
+				var err error
+				if v != nil {
+					err = idx.Add(*comet.NewVectorNodeWithID(id, cloneF32(v)))
+					m.add(id, v)
+				} else {
+					err = idx.Remove(*comet.NewVectorNodeWithID(id, nil))
+					m.remove(id)
+				}
+				if err != nil {
+					rep("hnsw.prelude-error", op+": "+err.Error())
+					return false
+				}
+				probe()
+				return true
+			}
+			a, b := ids.next(), ids.next()
+			va, vb := vg.fresh(), vg.fresh()
+			va2 := va
+			if rng.IntN(3) == 0 {
+				va2 = vg.fresh()
+			}
+			if !(do("add", a, va) && do("remove", a, nil) && do("add", b, vb) && do("re-add", a, va2) && do("remove", b, nil)) {
+				return
+			}
+			r.Count("ops:prelude-lone-vector-removed-and-brought-back", 1)
+		}
 		nOps := 10 + rng.IntN(50)
 		for op := 0; op < nOps; op++ {
 			c := rng.IntN(10)
@@ -304,6 +335,10 @@ func runC12(r *ev.Run) {
 					// the removed entry point comes straight back under the same id (an update of the oldest document),
 					// before any Flush
 					v := vg.fresh()
+					if old, ok := m.raw[id]; ok && rng.IntN(2) == 0 {
+						v = cloneF32(old) // the very same vector again
+						r.Count("ops:re-add-with-the-identical-vector", 1)
+					}
 					hist = append(hist, histOp{Op: "re-add(entry-point)", ID: id})
 					if err := idx.Add(*comet.NewVectorNodeWithID(id, cloneF32(v))); err != nil {
 						rep("hnsw.add-error", "re-adding the removed entry point: "+err.Error())
@@ -350,6 +385,10 @@ func runC12(r *ev.Run) {
 				// update: re-add a removed id (its tombstone may still be pending)
 				rm := sortedKeys(m.removed)
 				id, v := rm[rng.IntN(len(rm))], vg.fresh()
+				if old, ok := m.raw[id]; ok && rng.IntN(2) == 0 {
+					v = cloneF32(old) // the very same vector again (an "undelete")
+					r.Count("ops:re-add-with-the-identical-vector", 1)
+				}
 				hist = append(hist, histOp{Op: "re-add", ID: id, Vec: cloneF32(v)})
 				if err := idx.Add(*comet.NewVectorNodeWithID(id, cloneF32(v))); err != nil {
 					rep("hnsw.add-error", err.Error())
